@@ -148,7 +148,7 @@ def cmd_table(a):
             det.append("%s/%s:%s" % (r["property"], r["tier"], "yes" if r["detected"] else "NO"))
         rows.append("| %s | %s | %s | %s | %s | %s |" % (m["name"], m["property"], (m.get("needs_to_manifest") or "")[:110],
                                                        "ok" if (m.get("verified") or {}).get("ok") else "?", ", ".join(det),
-                                                       "missed at first, see meta.json" if m.get("first_verdict") else "detected at first run"))
+                                                       (m.get("status_note") or ("missed at first, see meta.json" if m.get("first_verdict") else "detected at first run"))[:160]))
     print("| seeded change | property | needs | verified | detected by (latest runs) | history |\n|---|---|---|---|---|---|")
     print("\n".join(rows))
 
